@@ -79,6 +79,30 @@ chk("C01", "PARTIAL. Coq theorems for the arithmetic that decides safety: Error:
     "Not shown: undefined behaviour inside unsafe blocks that happens not to crash, allocator internals, SIMD over-reads (argued by the padding and page checks, exercised with a guard page in C05). No sanitizer run is part of the quick tier.",
     "Coq proof of the safety-deciding arithmetic and protocols + exhaustive entry-point correspondence with allocation ledger")
 
+# ---- additions of the later rounds (appended to the claims above) ----
+T2 = (" T2: the integer-only functions named here are translated from the source text into Gallina on every run (lib/rs2coq.py -> coq/Gen/Funcs.v, "
+      "semantics Base/RustInt.v: None = panic of the build with overflow checks and debug assertions) and the theorems are about the translation; "
+      "the extracted translation and the implementation are run on the same arguments on every run (op t2).")
+EXTRA = {
+ "C01": " As translated from the source (T2): Eisel-Lemire compute_float::<f64> never overflows, shifts out of range, indexes outside its table or fails a debug assertion for any i64 exponent and u64 significand; codepoint_to_utf8 writes only the first four bytes of its buffer; hex_to_u32_nocheck's table indices are in range for all bytes; BitMask::clear_high_bits panics exactly outside its documented domain; parse_floating_normal_fast panics only when the middle word of its 192-bit product is all ones (a lattice search over all significands and table entries finds no such input; evidence, not proof)." + T2,
+ "C03": " As translated from the source (T2): Meta::pack_dom_node / unpack_dom_node round-trip every child index below 2^29 and length below 2^32." + T2,
+ "C07": " As translated from the source (T2): parse_floating_normal_fast (the 19-digit fast path after yyjson) returns, whenever it returns Some, the correctly rounded finite normal binary64 of man*10^exp10 for every exponent the guard admits and every non-zero 64-bit significand (product arithmetic against the 128-bit table, every table entry within one unit of the exact power, ties impossible on this path); compute_float::<f64> always yields e = -1 or a biased exponent in [0,2047] with a fraction below 2^53, and biased_fp_to_float assembles exactly that field and fraction." + T2,
+ "C09": " As translated from the source (T2): hex_to_u32_nocheck is the table expression of the hex theorems and codepoint_to_utf8 writes the reference UTF-8 encoding of every code point up to U+10FFFF, nothing for larger values." + T2,
+ "C10": " As translated from the source (T2): get_escaped_branchless_u64 computes the escaped-byte bitmap of the specification for every word and carry." + T2,
+ "C17": " As translated from the source (T2): the portable prefix_xor is the running parity on every 64-bit word; get_escaped_branchless_u32/u64 are the bit-list model on every word and carry; the BitMask helpers (first_offset = lowest set bit, all_zero, clear_high_bits = mod 2^(LEN-n)) never panic inside their domain; is_whitespace is the four JSON blanks." + T2,
+}
+NOTE_FIX = {
+ "C02": "The DOM parser's acceptance (parse_value/array/object) is validated by the correspondence, not transcribed; simdutf8 is modelled by Spec.Ref.utf8_valid (proved equal to the byte automaton of the Unicode standard). Both directions of the skipper and of the strict reference parser are theorems (skip_text_iff, strict_text_iff).",
+ "C11": "The model works on the parsed tree (objects); arrays and the text-level walk are covered by the correspondence. Soundness and completeness of the search model and of the path-trie construction are theorems (get_many_model_correct).",
+ "C12": "The text-level stepping functions (parse_array_elem_lazy / parse_entry_lazy) are tied by the correspondence against Spec.Ref.ref_array_iter / ref_object_iter, whose soundness and completeness are theorems (IterSound, IterObjSound, IterComplete).",
+ "C07": "PARTIAL: the Eisel-Lemire path is translated and proved panic-free and well-formed, its rounding correctness and the big-decimal slow path are validated against the specification, not proved; the digit scanner of parse_number is modelled for plain integers only (the rest is validated). Spec/Num.v's rounding is by exact integer arithmetic (rne_div proved to be THE nearest-even quotient) and is not proved equal to Flocq's operator. Flocq theorems depend on the four Reals axioms of the standard library.",
+}
+for k, v in EXTRA.items():
+    C[k]["text"] += v
+    C[k]["tech"] += " + source-to-Gallina translation (T2) validated by execution"
+for k, v in NOTE_FIX.items():
+    C[k]["note"] = NOTE + v
+
 NA = {}
 ALL = ["C%02d" % i for i in range(1, 21)]
 for p in ALL:
